@@ -33,10 +33,29 @@ func TestReplay(t *testing.T) {
 
 func replayOne(f string) {
 	vf.Load(f)
+	// a counterexample that depends on Go's map iteration order cannot be forced natively:
+	// the harness is repeated (the order is re-randomised on every range) until the violation shows
+	tries := 1
+	for k := range vf.R.Choices {
+		if strings.HasPrefix(k, "maporder#") {
+			tries = 64
+		}
+	}
+	for t := 1; t < tries; t++ {
+		if runOnce(f, true) {
+			return
+		}
+		vf.Load(f)
+	}
+	runOnce(f, false)
+}
+
+// runOnce runs the harness; with quiet it only reports (and returns true on) a reproduced violation
+func runOnce(f string, quiet bool) bool {
 	fn, ok := Harnesses[vf.R.Harness]
 	if !ok {
 		fmt.Printf("REPLAY %s NO-HARNESS %s\n", f, vf.R.Harness)
-		return
+		return true
 	}
 	var escaped interface{}
 	func() {
@@ -48,8 +67,10 @@ func replayOne(f string) {
 		fn()
 	}()
 	if escaped != nil {
-		fmt.Printf("REPLAY %s HARNESS-PANIC %v\n", f, escaped)
-		return
+		if !quiet {
+			fmt.Printf("REPLAY %s HARNESS-PANIC %v\n", f, escaped)
+		}
+		return false
 	}
 	if vf.R.Clause == "" { // witness of a completed path: everything the engine assumed and proved must hold natively
 		if len(vf.Unmet) == 0 && len(vf.Failed) == 0 {
@@ -57,17 +78,22 @@ func replayOne(f string) {
 		} else {
 			fmt.Printf("REPLAY %s WITNESS-MISMATCH failed=%v unmet-assumptions=%v\n", f, vf.Failed, vf.Unmet)
 		}
-		return
+		return true
 	}
 	for _, c := range vf.Failed {
 		if c == vf.R.Clause {
 			if len(vf.Unmet) > 0 {
-				fmt.Printf("REPLAY %s NOT-REPRODUCED assumptions unmet natively: %v\n", f, vf.Unmet)
-				return
+				if !quiet {
+					fmt.Printf("REPLAY %s NOT-REPRODUCED assumptions unmet natively: %v\n", f, vf.Unmet)
+				}
+				return false
 			}
 			fmt.Printf("REPLAY %s REPRODUCED clause=%s\n", f, c)
-			return
+			return true
 		}
 	}
-	fmt.Printf("REPLAY %s NOT-REPRODUCED failed=[%s] unmet-assumptions=%v\n", f, strings.Join(vf.Failed, ","), vf.Unmet)
+	if !quiet {
+		fmt.Printf("REPLAY %s NOT-REPRODUCED failed=[%s] unmet-assumptions=%v\n", f, strings.Join(vf.Failed, ","), vf.Unmet)
+	}
+	return false
 }
